@@ -41,6 +41,7 @@ type Result struct {
 	VTns       int64            `json:"vt_ns,omitempty"`
 	NonTrivial bool             `json:"nt,omitempty"`
 	Viol       *Violation       `json:"viol,omitempty"`
+	Known      []Violation      `json:"known,omitempty"`
 	Tape       []uint64         `json:"tape,omitempty"`
 	Sample     any              `json:"sample,omitempty"`
 	Faults     map[string]int64 `json:"faults,omitempty"`
@@ -157,7 +158,8 @@ func RunOne(t *testing.T, prop string, spec *Spec, seed uint64, idx uint64, tape
 		res.NonTrivial = spec.NonTrivial(r)
 	}
 	res.Faults, res.Probes, res.Counts = r.Faults, r.Probes, r.Counts
-	if res.Viol != nil {
+	res.Known = r.Knowns()
+	if res.Viol != nil || len(res.Known) > 0 {
 		res.Tape = append([]uint64(nil), tape.Recorded()...)
 	}
 	return res
